@@ -38,7 +38,8 @@ def parts(cfg, ps, gcc=True, flavour="include", std="gnu++17"):
 # quick-tier overrides: effect-heavy checks analyse the parts that contain both registry specialisations (zoo2: orthogonal root,
 # zoo3: no orthogonal region at all) instead of the whole zoo; the thorough tier always takes everything
 QUICK = {
-    "C04": lambda: parts("all", (2, 3), True) + parts("all", (3,), False),
+    # (+ zoo4: the machine in which ORTHO_UNIT != ORTHO_INDEX, for the accessor-slot instances of C04.forward)
+    "C04": lambda: parts("all", (2, 3, 4), True) + parts("all", (3,), False),
     "C09": lambda: parts("all", (2, 3), True) + parts("all", (3,), False),
     # logging: verbose mode (all) on both dispatch paths + interface-only mode (all-li), where S_::log overloads decide
     "C16": lambda: zoo(["all"], gcc=(True,)) + parts("all-li", (1, 2, 4), True) + parts("all", (2,), False),
